@@ -154,8 +154,15 @@ fn edit(src: &mut Src, n: &mut ANode) -> &'static str {
             }
             2 => {
                 if let Some(a) = e.attrs.first_mut() {
-                    a.1.push('!');
-                    "attribute_value"
+                    // '!' is a difference under every comparison; a space is one only under the exact and
+                    // the case-insensitive comparison, not under "spaces ignored" (and it changes the length)
+                    if src.bool() {
+                        a.1.push(' ');
+                        "attribute_value_space"
+                    } else {
+                        a.1.push('!');
+                        "attribute_value"
+                    }
                 } else {
                     e.attrs.push((QName::new("", "extra"), "1".into()));
                     "extra_attribute"
